@@ -994,6 +994,22 @@ def step (w : World) (line : String) : World × Out :=
         (w, ("ok " ++ " ".intercalate st.out.reverse, "*"))
       | none => badop
     | none => badop
+  | ["intlog", n] =>
+    match parseNat n with
+    | some n =>
+      -- spec: ceil(log2 n) via Nat.log2, 64 above 2^63 (checked_next_power_of_two overflows)
+      let sp := if n ≤ 1 then 0 else if n > 2 ^ 63 then 64 else Nat.log2 (n - 1) + 1
+      (w, (s!"ok {intLog n}", s!"ok {sp}"))
+    | none => badop
+  | ["complevel", i, d, pd] =>
+    match parseNat i, parseNat d, parseNat pd with
+    | some i, some d, some pd =>
+      let rec tzs (fuel n : Nat) : Nat := match fuel with
+        | 0 => 0
+        | f+1 => if n % 2 = 1 then 0 else 1 + tzs f (n / 2)
+      let raw := if i = 0 then d + pd else tzs 64 i
+      (w, (s!"ok {computeLevel i d pd}", s!"ok {if raw < pd then 0 else raw}"))
+    | _, _, _ => badop
   | ["treeof", hs, t] =>
     -- copy the backing tree root of a flushed collection into a tree slot
     match parseNat hs, parseNat t with
